@@ -103,7 +103,9 @@ BytesInPlace == /\ (PicStart \div 8) + Len(E.bytes) <= Len(src')
 (* a picture needs prediction if some macroblock is predicted, not coded, or missing (early end of data) *)
 NeedsRef == \/ Len(RealMbs(P)) < NMb(P)
             \/ \E i \in 1..Len(P.mbs) : P.mbs[i].k = "skip" \/ (P.mbs[i].k = "mb" /\ ~IsIntraT(P.mbs[i].t))
-ExpectOk == P.pt = "I" \/ ~NeedsRef \/ (refPic.w = D[1] /\ refPic.h = D[2])
+(* a header that does not transmit the format (UFEP = 000) takes it from the most recent picture: there must be one *)
+FormatKnown == ~Ufep0(P) \/ lastPic # NoPic
+ExpectOk == FormatKnown /\ (P.pt = "I" \/ ~NeedsRef \/ (refPic.w = D[1] /\ refPic.h = D[2]))
 (* after a rejected call nothing may have changed *)
 UnchangedOk ==
     /\ StateObsOk(lastPic, refPic) /\ LastObsOk(lastPic)
@@ -158,6 +160,8 @@ DecodeStart ==
        ELSE IF ~WellFormed(P) THEN Diag("HARNESS", "abstract-picture-ill-formed", "harness", P.tr) /\ UNCHANGED <<pos, posKnown>> /\ KeepDecoder /\ NextLine
        ELSE IF BytesOfBits(PaddedBits(PFull)) # E.bytes \/ ~BytesInPlace
        THEN Diag("HARNESS", "bytes-are-not-the-encoding-of-the-abstract-picture", "harness", [tr |-> P.tr]) /\ UNCHANGED <<pos, posKnown>> /\ KeepDecoder /\ NextLine
+       ELSE IF Ufep0(P) /\ lastPic # NoPic /\ (lastPic.w # D[1] \/ lastPic.h # D[2])
+       THEN Diag("HARNESS", "ufep0-picture-must-have-the-size-of-the-picture-before-it", "harness", [tr |-> P.tr]) /\ UNCHANGED <<pos, posKnown>> /\ KeepDecoder /\ NextLine
        ELSE IF ~ExpectOk
        THEN \* a picture needing prediction without a (matching) reference must be rejected
             IF RetClass = "ok"
